@@ -68,7 +68,10 @@ OpsOf(s) ==
   \cup (IF On("DeleteColumns") THEN {[op |-> "DeleteColumns", a |-> p[1], b |-> p[2]] : p \in PairsD(w)} ELSE {})
   \cup (IF On("SetCellText") THEN {[op |-> "SetCellText", r |-> p[1], c |-> p[2], tok |-> n] : p \in CellsD(t)} ELSE {})
   \cup UNION {IF On(o) THEN {[op |-> o, r |-> p[1], c |-> p[2], tok |-> n] : p \in (IF CellMode = "all" THEN CellsD(t) ELSE FewCells(t))} ELSE {}
-              : o \in CellOps \ {"SetCellText", "CellFmt"}}
+              : o \in CellOps \ {"SetCellText", "CellFmt", "AddNestedTable"}}
+  \cup (IF On("AddNestedTable") THEN
+         {[op |-> "AddNestedTable", cfg |-> "ok", r |-> p[1], c |-> p[2], tok |-> n] : p \in (IF CellMode = "all" THEN CellsD(t) ELSE FewCells(t))}
+         \cup {[op |-> "AddNestedTable", cfg |-> k, r |-> 0, c |-> 0, tok |-> n] : k \in NestCfgs} ELSE {})
   \cup (IF On("CellFmt") THEN
          {[op |-> "CellFmt", f |-> f, r |-> p[1], c |-> p[2], tok |-> n] :
             f \in FmtKinds, p \in (IF CellMode = "all" THEN CellsD(t) ELSE FewCells(t))} ELSE {})
@@ -80,6 +83,7 @@ OpsOf(s) ==
          {[op |-> "MergeCellsRange", sr |-> p[1], er |-> p[2], sc |-> q[1], ec |-> q[2]] : p \in PairsD(nr), q \in PairsD(w)} ELSE {})
   \cup (IF On("UnmergeCells") THEN {[op |-> "UnmergeCells", r |-> p[1], c |-> p[2]] : p \in CellsD(t)} ELSE {})
   \cup {[op |-> o] : o \in OpNames \cap {"ClearTable", "CopyTable", "ReadAll", "RowFmt"}}
+  \cup (IF On("TblFmt") THEN {[op |-> "TblFmt", f |-> f] : f \in TblFmtKinds} ELSE {})
 
 \* ---- constructions: every entry point, dimensions from -1, fewer / as many / more column widths than
 \* columns, initial contents absent / exact / smaller / larger than the table
